@@ -368,7 +368,7 @@ __strfdt_card(
 	case DT_SPFL_N_EPOCHNS: {
 		/* convert to sexy */
 		int64_t sexy = dt_conv_to_sexy(that).sexy;
-		res = snprintf(buf, bsz, "%" PRIi64, sexy);
+		res = snprintfd(snprintf(buf, bsz, "%" PRIi64, sexy), bsz);
 		break;
 	}
 
@@ -380,9 +380,9 @@ __strfdt_card(
 			z = -z;
 			sign = '-';
 		}
-		res = snprintf(
+		res = snprintfd(snprintf(
 			buf, bsz, "%c%02u:%02u",
-			sign, (uint32_t)z / 3600U, ((uint32_t)z / 60U) % 60U);
+			sign, (uint32_t)z / 3600U, ((uint32_t)z / 60U) % 60U), bsz);
 		break;
 	}
 
@@ -447,11 +447,11 @@ __strfdt_dur(
 			/*@fallthrough@*/
 		case DT_DURS:
 			if (LIKELY(!that.tai)) {
-				return (size_t)snprintf(
-					buf, bsz, "%" PRIi64 "s", dv);
+				return snprintfd(snprintf(
+					buf, bsz, "%" PRIi64 "s", dv), bsz);
 			} else {
-				return (size_t)snprintf(
-					buf, bsz, "%" PRIi64 "rs", dv);
+				return snprintfd(snprintf(
+					buf, bsz, "%" PRIi64 "rs", dv), bsz);
 			}
 			break;
 		}
@@ -466,11 +466,11 @@ __strfdt_dur(
 			/*@fallthrough@*/
 		case DT_DURNANO:
 			if (LIKELY(!that.tai)) {
-				return (size_t)snprintf(
-					buf, bsz, "%" PRIi64 "ns", dur);
+				return snprintfd(snprintf(
+					buf, bsz, "%" PRIi64 "ns", dur), bsz);
 			} else {
-				return (size_t)snprintf(
-					buf, bsz, "%" PRIi64 "rns", dur);
+				return snprintfd(snprintf(
+					buf, bsz, "%" PRIi64 "rns", dur), bsz);
 			}
 		default:
 			break;
@@ -506,13 +506,13 @@ __strfdt_xdn(char *buf, size_t bsz, struct dt_dt_s that)
 	case DT_LDN:
 		dn = (double)that.d.ldn;
 		if (dt_sandwich_only_d_p(that)) {
-			return snprintf(buf, bsz, "%.0f", dn);
+			return snprintfd(snprintf(buf, bsz, "%.0f", dn), bsz);
 		}
 		break;
 	case DT_MDN:
 		dn = (double)that.d.mdn;
 		if (dt_sandwich_only_d_p(that)) {
-			return snprintf(buf, bsz, "%.0f", dn);
+			return snprintfd(snprintf(buf, bsz, "%.0f", dn), bsz);
 		}
 		break;
 	default:
@@ -523,7 +523,7 @@ __strfdt_xdn(char *buf, size_t bsz, struct dt_dt_s that)
 		unsigned int ss = __secs_since_midnight(that.t);
 		dn += (double)ss / (double)SECS_PER_DAY;
 	}
-	return snprintf(buf, bsz, "%.6f", dn);
+	return snprintfd(snprintf(buf, bsz, "%.6f", dn), bsz);
 }
 
 #endif	/* INCLUDED_dt_core_strpf_c_ */
